@@ -473,3 +473,147 @@ func paramAt(info *types.Info, fd *ast.FuncDecl, i int) types.Object {
 	}
 	return nil
 }
+
+// conjuncts of a condition, by text.
+func conjunctTexts(e ast.Expr, out map[string]bool) {
+	e = ast.Unparen(e)
+	if be, ok := e.(*ast.BinaryExpr); ok && be.Op == token.LAND {
+		conjunctTexts(be.X, out)
+		conjunctTexts(be.Y, out)
+		return
+	}
+	out[core.ExprStr(e)] = true
+}
+
+// c04ShadowedCase: in a switch without a tag the first true case wins; a case whose condition
+// implies an earlier one never runs.
+func c04ShadowedCase(r *core.Report) {
+	p := r.Prog
+	info := p.Pkg("openapi3").TypesInfo
+	_ = info
+	r.RunRule("C04.shadowedcase", "no check is shadowed by an earlier case: in every tagless switch of the Validate methods and validate* helpers of package openapi3, no case has all the conjuncts of an earlier case among its own (case `A` before case `A && B`: the second can never run) — reordering the cases of OAuthFlow.validate put `tokenUrl != \"\"` in front of `tokenUrl != \"\" && !in`, and an implicit flow with a tokenUrl was accepted", 3, func() {
+		n := 0
+		for _, d := range validateFamily(p) {
+			if d.Body == nil {
+				continue
+			}
+			perFn := 0
+			ast.Inspect(d.Body, func(nd ast.Node) bool {
+				sw, ok := nd.(*ast.SwitchStmt)
+				if !ok || sw.Tag != nil {
+					return true
+				}
+				n++
+				perFn++
+				key := fmt.Sprintf("shadowedcase:%s#%d", core.FuncName(d), perFn)
+				bad := ""
+				var earlier []map[string]bool
+				for _, c := range sw.Body.List {
+					cc := c.(*ast.CaseClause)
+					if len(cc.List) != 1 {
+						earlier = append(earlier, nil)
+						continue
+					}
+					mine := map[string]bool{}
+					conjunctTexts(cc.List[0], mine)
+					for _, prev := range earlier {
+						if prev == nil {
+							continue
+						}
+						all := true
+						for t := range prev {
+							if !mine[t] {
+								all = false
+							}
+						}
+						if all && bad == "" {
+							bad = "case `" + core.ExprStr(cc.List[0]) + "` at " + p.Pos(cc.Pos())
+						}
+					}
+					earlier = append(earlier, mine)
+				}
+				r.Check(bad == "", key, p.Pos(sw.Pos()), "no case implies an earlier one", bad+" can never run: an earlier case of the same switch is true whenever it is, so the check it makes (and the error it returns) is gone")
+				return true
+			})
+		}
+		if n == 0 {
+			core.Fail("no tagless switch found in the validate family")
+		}
+	})
+}
+
+// c17LoopCopy: assigning to the variable of a range loop changes the copy, not the element.
+func c17LoopCopy(r *core.Report) {
+	p := r.Prog
+	info := p.Pkg("openapi2conv").TypesInfo
+	r.RunRule("C17.loopcopy", "a converted value is stored where it came from: in package openapi2conv no statement assigns to the value variable of a `range` loop without that variable being read afterwards in the loop body — `for _, refs := range []SchemaRefs{v.OneOf, ...} { ...; refs = converted }` converts the references of the compositions and drops the result, where the loop over pointers (`*refs = converted`) stored it", 20, func() {
+		for _, d := range p.AllDecls("openapi2conv") {
+			if d.Body == nil {
+				continue
+			}
+			perFn := 0
+			ast.Inspect(d.Body, func(nd ast.Node) bool {
+				rs, ok := nd.(*ast.RangeStmt)
+				if !ok || rs.Value == nil {
+					return true
+				}
+				vid, ok := rs.Value.(*ast.Ident)
+				if !ok || vid.Name == "_" {
+					return true
+				}
+				vobj := info.ObjectOf(vid)
+				perFn++
+				key := fmt.Sprintf("loopcopy:%s#%d", core.FuncName(d), perFn)
+				bad := ""
+				ast.Inspect(rs.Body, func(m ast.Node) bool {
+					as, ok := m.(*ast.AssignStmt)
+					if !ok || bad != "" {
+						return true
+					}
+					for _, l := range as.Lhs {
+						id, ok := ast.Unparen(l).(*ast.Ident)
+						if !ok || info.ObjectOf(id) != vobj {
+							continue
+						}
+						// read later in the body?
+						readLater := false
+						ast.Inspect(rs.Body, func(u ast.Node) bool {
+							if uid, ok := u.(*ast.Ident); ok && uid.Pos() > as.End() && info.ObjectOf(uid) == vobj {
+								readLater = true
+							}
+							return true
+						})
+						if !readLater {
+							bad = p.Pos(as.Pos())
+						}
+					}
+					return true
+				})
+				r.Check(bad == "", key, p.Pos(rs.Pos()), "the loop variable is not assigned in vain", "the value variable "+vid.Name+" of this loop is assigned at "+bad+" and not read afterwards: the assignment changes the loop's copy, and what was computed for the element is lost")
+				return true
+			})
+		}
+	})
+}
+
+// c09VarCount: the matching order counts variables, wherever in a segment they stand.
+func c09VarCount(r *core.Report) {
+	p := r.Prog
+	info := p.Pkg("openapi3").TypesInfo
+	r.RunRule("C09.varcount", "a template's rank in the matching order is its number of variables: in Paths.InMatchingOrder what strings.Count counts in a path is a brace (`{` or `}`), not a brace together with its neighbour — counting `/{` misses a variable that starts in the middle of a segment (`/api/v{version}`), which then ranks as a literal and is registered in front of its literal sibling `/api/v1`", 1, func() {
+		fd := p.DeclOf("openapi3", "Paths.InMatchingOrder")
+		n := 0
+		for _, c := range callsTo(info, fd.Body, "Count") {
+			f := core.CalleeOf(info, c)
+			if f == nil || f.Pkg() == nil || f.Pkg().Path() != "strings" || len(c.Args) != 2 {
+				continue
+			}
+			n++
+			s, ok := core.ConstStr(info, c.Args[1])
+			r.Check(ok && (s == "{" || s == "}"), fmt.Sprintf("varcount:InMatchingOrder#%d", n), p.Pos(c.Pos()), "counts braces", "InMatchingOrder counts occurrences of "+core.ExprStr(c.Args[1])+" to rank a template: a variable that this text does not announce (one inside a segment) is not counted, the template ranks too early and wins over a literal path")
+		}
+		if n == 0 {
+			core.Fail("InMatchingOrder: no strings.Count found")
+		}
+	})
+}
